@@ -524,6 +524,8 @@ def r5_create_jobs(ctx: Ctx) -> None:
     for table, counters in ((STAGE_TBL, STAGE_COUNTERS), (CANC_TBL, ['n_ready_cancellable_jobs', 'ready_cancellable_cores_mcpu'])):
         e, st = by_table[table]
         cons2 = f'{file}::_create_jobs::insert {table}'
+        ctx.need(st.select is not None, f'_create_jobs: the insert into {table} no longer fans out over job_group_self_and_ancestors in SQL (INSERT .. SELECT); '
+                 'a roll-up done in Python is outside what this rule can decide')
         ins, dup, uvars = sr.insert_colmap(st)
         params = sr.params_in_order(st)
         args_node = e.call.args[1] if len(e.call.args) > 1 else None
